@@ -87,3 +87,35 @@ package protocol
 //@   loop 1:
 //@     invariant i <= p.NumberOfGroups && 8 <= n && n <= len(data)
 //@     decreases int(p.NumberOfGroups) - int(i)
+
+// ---------------------------------------------------------------------------------------------
+// DHCP and LLDP decoders (named Write in this package: they consume bytes into the receiver)
+
+//@ func (*DHCP).Write(d, b) (n, err) [C08 C12]
+//@   modifies *d
+//@   own noalias
+
+//@ func DHCPParseOptions(in) (opts, err) [C08]
+//@   loop 1:
+//@     invariant 0 <= pos && pos <= len(in)
+//@     decreases len(in) - pos
+
+//@ func (*ChassisTLV).Write(t, b) (n, err) [C08 C12]
+//@   modifies *t
+//@   own noalias
+//@   ensures 0 <= n && n <= len(b)
+
+//@ func (*PortTLV).Write(t, b) (n, err) [C08 C12]
+//@   modifies *t
+//@   own noalias
+//@   ensures 0 <= n && n <= len(b)
+
+//@ func (*TTLTLV).Write(t, b) (n, err) [C08 C12]
+//@   modifies *t
+//@   own noalias
+//@   ensures 0 <= n && n <= len(b)
+
+//@ func (*LLDP).Write(d, b) (n, err) [C08 C12]
+//@   modifies *d
+//@   own noalias
+//@   ensures 0 <= n && n <= len(b)
